@@ -304,6 +304,7 @@ void first_order(const char * nm, const F & f, std::tuple<Args...> xs, vf::Tape 
     subset_check(nm, f, xs, J, ctx, std::index_sequence<0>{});
     subset_check(nm, f, xs, J, ctx, std::index_sequence<1>{});
     subset_check(nm, f, xs, J, ctx, std::index_sequence<0, 1>{});
+    subset_check(nm, f, xs, J, ctx, std::index_sequence<1, 0>{});  // an index sequence is ordered: columns follow ITS order
   } else if constexpr (sizeof...(Args) == 3) {
     subset_check(nm, f, xs, J, ctx, std::index_sequence<0>{});
     subset_check(nm, f, xs, J, ctx, std::index_sequence<1>{});
@@ -312,7 +313,42 @@ void first_order(const char * nm, const F & f, std::tuple<Args...> xs, vf::Tape 
     subset_check(nm, f, xs, J, ctx, std::index_sequence<0, 2>{});
     subset_check(nm, f, xs, J, ctx, std::index_sequence<1, 2>{});
     subset_check(nm, f, xs, J, ctx, std::index_sequence<0, 1, 2>{});
+    subset_check(nm, f, xs, J, ctx, std::index_sequence<2, 0>{});
+    subset_check(nm, f, xs, J, ctx, std::index_sequence<1, 0, 2>{});
+    subset_check(nm, f, xs, J, ctx, std::index_sequence<2, 0, 1>{});
+    subset_check(nm, f, xs, J, ctx, std::index_sequence<2, 1, 0>{});
   }
+}
+
+// K = 2 with an index (sub)sequence: Jacobian columns and Hessian rows / in-block columns of the selected arguments,
+// in the order of the sequence, against the reference derivative (same tolerances as the full call)
+template<class F, class... Args, std::size_t... Sub>
+void subset_check2(const char * nm, const F & f, std::tuple<Args...> & xs, const MXL & Jref, const MXL & Href, vf::Ctx & ctx, std::index_sequence<Sub...> idx)
+{
+  auto xt = std::apply([](auto &... a) { return smooth::wrt(a...); }, xs);
+  const auto before = flat_tuple(xs);
+  const auto [v, Js, Hs] = diff::dr<2, diff::Type::Numerical>(f, xt, idx);
+  ctx.le(std::string(nm) + ": K=2 subset call: by-reference arguments restored", restore_err(before, flat_tuple(xs)), 1e-15);
+  std::array<Eigen::Index, sizeof...(Args)> lens = std::apply([](const auto &... a) { return std::array<Eigen::Index, sizeof...(Args)>{smooth::dof(a)...}; }, xs);
+  std::vector<Eigen::Index> cols;
+  for (std::size_t s : {Sub...}) {
+    Eigen::Index b = 0;
+    for (std::size_t q = 0; q < s; ++q) b += lens[q];
+    for (Eigen::Index k = 0; k < lens[s]; ++k) cols.push_back(b + k);
+  }
+  const Eigen::Index ns = static_cast<Eigen::Index>(cols.size()), nx = Jref.cols(), ny = Jref.rows();
+  const bool shape = Js.cols() == ns && Js.rows() == ny && Hs.rows() == ns && Hs.cols() == ns * ny;
+  ctx.require(std::string(nm) + ": K=2 subset derivative shapes", shape);
+  if (!shape) return;
+  MXL Jr(ny, ns), Hr(ns, ns * ny);
+  for (Eigen::Index c = 0; c < ns; ++c) Jr.col(c) = Jref.col(cols[static_cast<size_t>(c)]);
+  for (Eigen::Index i = 0; i < ny; ++i)
+    for (Eigen::Index c0 = 0; c0 < ns; ++c0)
+      for (Eigen::Index c1 = 0; c1 < ns; ++c1) Hr(c0, i * ns + c1) = Href(cols[static_cast<size_t>(c0)], i * nx + cols[static_cast<size_t>(c1)]);
+  // error relative to the largest entry of the FULL derivative (not below 1), as for the full call
+  const orc::LD sj = std::max<orc::LD>(1, Jref.cwiseAbs().maxCoeff()), sh = std::max<orc::LD>(1, Href.cwiseAbs().maxCoeff());
+  ctx.le(std::string(nm) + ": K=2 subset first derivative == selected columns", static_cast<double>((MX(Js).cast<orc::LD>() - Jr).cwiseAbs().maxCoeff() / sj), 1e-2);
+  ctx.le(std::string(nm) + ": K=2 subset Hessian == selected rows/columns of every block", static_cast<double>((MX(Hs).cast<orc::LD>() - Hr).cwiseAbs().maxCoeff() / sh), 5e-2);
 }
 
 template<class F, class... Args>
@@ -329,6 +365,10 @@ void second_order(const char * nm, const F & f, std::tuple<Args...> xs, vf::Ctx 
   // (the first derivative returned by the second-order scheme uses the larger step eps^(1/4): sanity bound only)
   ctx.le(std::string(nm) + ": numerical first derivative (K=2)", relm(MX(J).cast<orc::LD>(), Jref), 1e-2);
   ctx.le(std::string(nm) + ": numerical second derivative", relm(MX(H).cast<orc::LD>(), Href, 1.0), 5e-2);
+  if constexpr (sizeof...(Args) == 2) {
+    subset_check2(nm, f, xs, Jref, Href, ctx, std::index_sequence<1>{});
+    subset_check2(nm, f, xs, Jref, Href, ctx, std::index_sequence<1, 0>{});
+  }
 }
 
 // ---- checks -----------------------------------------------------------------------------------------------
